@@ -295,6 +295,19 @@ def r_order(c):
     c.check(len(loops) == 1 and ast.unparse(loops[0].iter) == "compute_order", "R01-ORDER",
             "generate_loopy", "stores-follow-compute-order", m.loc(LC, g),
             "output stores are not emitted in the pre-computed compute order")
+    # a hand-written kernel is called with arguments in the callee's own
+    # declaration order (rule stated in the code: "must traverse in the order of
+    # callee's args to generate the correct assignees order")
+    lc = m.func(CGM + ".map_loopy_call")
+    loops = [l for l in ast.walk(lc) if isinstance(l, ast.For)
+             and any("assignees.append" in ast.unparse(s_) or "params.append" in ast.unparse(s_)
+                     for s_ in ast.walk(l))]
+    c.check(len(loops) == 1 and ast.unparse(loops[0].iter) == "callee_kernel.args",
+            "R01-ORDER", "CodeGenMapper.map_loopy_call", "call-arguments-in-callee-declaration-order",
+            m.loc(LC, lc),
+            "the assignees/parameters of the emitted call are not collected by iterating "
+            "callee_kernel.args in declaration order: loopy's positional call convention "
+            "then binds operands to the wrong callee arguments")
     cm = m.func(CGM + ".map_index_lambda")
     c.check("for name in sorted(expr.bindings)" in ast.unparse(cm), "R01-ORDER",
             "CodeGenMapper.map_index_lambda", "operands-generated-in-sorted-name-order",
